@@ -1444,7 +1444,11 @@ where
             }
 
             if self.typ.joint_rand_len() > 0 {
-                let joint_rand_seed_part = share.joint_rand_part.unwrap();
+                let joint_rand_seed_part = share.joint_rand_part.ok_or_else(|| {
+                    VdafError::Uncategorized(
+                        "verifier share is missing the joint randomness part".to_string(),
+                    )
+                })?;
                 joint_rand_parts.push(joint_rand_seed_part);
             }
 
@@ -1484,13 +1488,15 @@ where
     ) -> Result<VerifyTransition<Self, SEED_SIZE, 16>, VdafError> {
         if self.typ.joint_rand_len() > 0 {
             // Check that the joint randomness was correct.
-            if step
-                .joint_rand_seed
-                .as_ref()
-                .unwrap()
-                .ct_ne(msg.joint_rand_seed.as_ref().unwrap())
-                .into()
-            {
+            let (Some(state_seed), Some(message_seed)) =
+                (step.joint_rand_seed.as_ref(), msg.joint_rand_seed.as_ref())
+            else {
+                return Err(VdafError::Uncategorized(
+                    "verification state or message is missing the joint randomness seed"
+                        .to_string(),
+                ));
+            };
+            if state_seed.ct_ne(message_seed).into() {
                 return Err(VdafError::Uncategorized(
                     "joint randomness mismatch".to_string(),
                 ));
